@@ -3,6 +3,7 @@
 //! per call (arguments + projected result) for validation by the matching trace specification,
 //! or replays TLC-generated cases.
 mod util;
+mod c02;
 mod c03;
 mod c13;
 mod c15;
@@ -15,10 +16,26 @@ mod pkg;
 mod pkgobs;
 mod rawhdr;
 
+struct ForceFormat;
+impl log::Log for ForceFormat {
+    fn enabled(&self, _: &log::Metadata) -> bool {
+        true
+    }
+    fn log(&self, record: &log::Record) {
+        // format (and drop) every message so that debug-only formatting code really runs
+        let _ = format!("{}", record.args());
+    }
+    fn flush(&self) {}
+}
+static LOGGER: ForceFormat = ForceFormat;
+
 fn main() {
     let args = util::Args::parse();
     util::quiet_panics();
+    let _ = log::set_logger(&LOGGER);
+    log::set_max_level(log::LevelFilter::Debug);
     match args.scenario.as_str() {
+        "c02" => c02::run(&args),
         "c03" => c03::run(&args),
         "c13" => c13::run(&args),
         "c15" => c15::run(&args),
